@@ -9,5 +9,5 @@ git apply "$P" || { echo "patch does not apply"; exit 3; }
 EVB=$(mktemp -d /tmp/evidence-backup.XXXXXX); cp -a /verif/evidence/. "$EVB"/ 2>/dev/null
 trap 'git -C /repo checkout -- . ; cp -a "$EVB"/. /verif/evidence/ ; rm -rf "$EVB"' EXIT
 for prop in "$@"; do
-  ( cd /verif && ./check "$prop" --tier quick 2>&1 | grep -E "^(VIOLATION|OK|FAIL|KNOWN)" )
+  ( cd /verif && timeout 1500 ./check "$prop" --tier quick 2>&1 | grep -E "^(VIOLATION|OK|FAIL|KNOWN)" )
 done
